@@ -882,6 +882,10 @@ class World:
                 it.throw("ValueError", str(e), n)
         if not isinstance(base, int):
             it.unsupported("symbolic base", n)
+        if base == 10 and isinstance(v, SStr) and v.digits_only is not False and v.digits_only is not True:
+            # a numeral produced by a host formatting function from a known number (strftime, zfill of it): int() reads that
+            # number back - no string reasoning
+            return mk_int(v.digits_only)
         key = base
         if key not in self.INTPARSE:
             self.INTPARSE[key] = (z3.Function(f"int_ok_{base}", z3.StringSort(), z3.BoolSort()),
@@ -1000,6 +1004,29 @@ class World:
                 if conc and all(_native(x) for x in a):
                     return s.replace(*a)
                 return mk_str(self.replace_all(zs(s), zs(a[0]), zs(a[1])))
+            return m(f)
+        if name == "zfill":
+            def f(it, a, k, n):
+                if len(a) != 1 or not is_intlike(a[0]):
+                    it.guard(False, "TypeError", n, "zfill() takes exactly one int")
+                if conc and isinstance(a[0], int):
+                    return s.zfill(a[0])
+                # a digit string (no sign to step over) padded on the left with zeros to the width; the int() model is told that
+                # leading zeros do not change the number
+                if getattr(s, "digits_only", False) is False:
+                    it.unsupported("zfill() of a string that may start with a sign", n)
+                z, wd = zs(s), zi(a[0])
+                # (stated without string-theory terms, like the strftime numeral itself: an uninterpreted function with the facts
+                #  that matter downstream - its length, and that int() reads the same number from it)
+                r = ZFILL(z, wd)
+                it.path.assume(z3.Length(r) >= wd, check=False)
+                if 10 in self.INTPARSE:
+                    okf, valf = self.INTPARSE[10]
+                    # a digit string stays one, and leading zeros do not change the number int() reads
+                    it.path.assume(z3.And(okf(r), valf(r) == valf(z)), check=False)
+                out = mk_str(r)
+                out.digits_only = s.digits_only      # the number it denotes, if known (leading zeros do not change it)
+                return out
             return m(f)
         if name in ("upper", "lower", "strip"):
             def f(it, a, k, n):
@@ -1553,6 +1580,7 @@ def dt_key(d):
 
 
 STRF_NUMERAL = z3.Function("strftime_YmdHMS", z3.IntSort(), z3.StringSort())
+ZFILL = z3.Function("zfill_of_numeral", z3.StringSort(), z3.IntSort(), z3.StringSort())
 
 
 def strftime(it, d, fmt, n):
@@ -1569,5 +1597,7 @@ def strftime(it, d, fmt, n):
         okf, valf = w.INTPARSE[10]
         # (stated through the int() model's own predicates: no string-theory reasoning needed downstream)
         it.path.assume(z3.And(okf(r), valf(r) == num, num > 0, z3.Length(r) >= 5), check=False)
-        return SStr(r)
+        out = SStr(r)
+        out.digits_only = num       # a numeral: digits only, denoting this number (used by the zfill and int() models)
+        return out
     return it.fresh_str("strftime")
